@@ -52,6 +52,7 @@ THEOREMS = [
     "OllamaVerif.C14.single_stop",
     "OllamaVerif.C14.consumer_schedule_independent",
     "OllamaVerif.C14.c14_streamed_text",
+    "OllamaVerif.C14.batch_mates_independent",
     "OllamaVerif.C14.F7_first_listed_not_earliest",
     "OllamaVerif.C14.F20_invalid_bytes_dropped",
     "OllamaVerif.C14.F20_reason_not_injective",
@@ -77,6 +78,7 @@ OV_COMMON = {
 OV_OLLAMA = {
     "runner/ollamarunner/zz_verif_c14_test.go": "runner_ollamarunner/zz_verif_c14_test.go",
     "runner/ollamarunner/zz_verif_c14_sched_test.go": "runner_ollamarunner/zz_verif_c14_sched_test.go",
+    "runner/ollamarunner/zz_verif_c14_multi_test.go": "runner_ollamarunner/zz_verif_c14_multi_test.go",
 }
 OV_LLAMA = {"runner/llamarunner/zz_verif_c14_test.go": "runner_llamarunner/zz_verif_c14_test.go"}
 
@@ -159,6 +161,17 @@ def run(ctx):
         ctx.violation("driver-failed", "", out[-1500:], no_input=True)
     ctx.read_stats(outdir)
     ctx.l1(outdir, label="L1-sched")
+    ctx.classify(ctx.l2(outdir))
+
+    # (2c) 2-3 sequences in one Server (join/leave at different times, small batch sizes): every sequence against the
+    # single-sequence model, and against itself running alone on the real code
+    env = {"VERIF_N": ctx.scale(600, 30000), "VERIF_C14_PINNED": PINNED_FINDSTOP}
+    env.update(env_replay)
+    rc, out, outdir = ctx.go_test("./runner/ollamarunner/", OV_OLLAMA, "^TestVerifC14Multi$", env=env, timeout=2400)
+    if rc != 0:
+        ctx.violation("driver-failed", "", out[-1500:], no_input=True)
+    ctx.read_stats(outdir)
+    ctx.l1(outdir, label="L1-multi")
     ctx.classify(ctx.l2(outdir))
 
     # (3) llamarunner's own copy of flushPending
